@@ -16,8 +16,8 @@ import NmVerif.Lemmas.RearrangePerm
     flip               i[k] = n_k - 1 - d[k] on the listed axes, i[k] = d[k] elsewhere
   Axis arguments are `Int`s; `normalizeAxis(es) … = some p` in a hypothesis is NumPy's `normalize_axis_index/tuple`
   (see `normalizeAxis_spec`).  Hypotheses are the property's guards: positive extents, valid (duplicate-free,
-  in-range) axes, equal element count.  The two places where the unchanged code breaks the property
-  (results of rank 0; negative flip axes) are excluded by an explicit hypothesis and have `…_counterexample` theorems.
+  in-range) axes, equal element count.  Results of rank 0 (NumPy's shape `()`) and negative flip axes are covered:
+  the two defects found there in the original tree (fixes/C03-*.diff) are repaired and the model follows the repaired code.
 -/
 namespace NmVerif.Props.C03
 open NmVerif
@@ -143,36 +143,29 @@ example : ∀ (k a : Nat), [2,0,1][k]? = some a → [1,2,0][a]? = some k := by
   | 2 => simp; intro h; subst h; rfl
   | k+3 => simp
 
-/-- **reshape shape = NumPy** (no `-1`): a non-empty target with the same element count is accepted and is the result shape -/
-theorem reshape_shape (src t : Shape) (hne : t ≠ []) (hp : prod t = prod src) :
+/-- **reshape shape = NumPy** (no `-1`): a target of positive extents (of any rank, rank 0 included) with the same
+    element count is accepted and is the result shape -/
+theorem reshape_shape (src t : Shape) (ht : Pos t) (hp : prod t = prod src) :
     shapeReshape src (t.map Int.ofNat) = some t := by
-  have hne' : t.map Int.ofNat ≠ [] := by simpa using hne
-  simp only [shapeReshape, countNegativeReshape_eq _ hne', cntNeg_ofNat, prodNonNeg_ofNat, hp]
-  simp
-  apply List.ext_getElem?
-  intro k
-  simp only [List.getElem?_map]
-  cases t[k]? with
-  | none => rfl
-  | some x =>
-    have : ¬ ((x : Int) = -1) := by omega
-    simp [this]
+  simp only [shapeReshape, countNegativeReshape_eq, cntNeg_ofNat, prodNonNeg_ofNat, hp, any_bad_ofNat t ht]
+  simp [map_infer_ofNat]
 
 /-- **one inferred `-1`** at any position: with `m` = product of the other (positive) target extents and `m ∣ size`,
-    the result shape is the target with `-1` replaced by `size / m` (NumPy's rule).
-    (`_hm`: with `m = 0` the C++ evaluates `size % 0`, which is undefined; Lean's `%` is total, so the model does not need it.) -/
-theorem reshape_infer (src pre post : Shape) (_hm : 0 < prod pre * prod post)
+    the result shape is the target with `-1` replaced by `size / m` (NumPy's rule). -/
+theorem reshape_infer (src pre post : Shape) (hpre : Pos pre) (hpost : Pos post)
     (hdiv : prod pre * prod post ∣ prod src) :
     shapeReshape src (pre.map Int.ofNat ++ [-1] ++ post.map Int.ofNat)
       = some (pre ++ [prod src / (prod pre * prod post)] ++ post) := by
-  have hne : pre.map Int.ofNat ++ [-1] ++ post.map Int.ofNat ≠ [] := by simp
   have hc : cntNeg (pre.map Int.ofNat ++ [-1] ++ post.map Int.ofNat) = 1 := by
     have h1 : cntNeg [(-1 : Int)] = 1 := by decide
     simp only [cntNeg_append, cntNeg_ofNat, h1]
   have hpn : prodNonNeg (pre.map Int.ofNat ++ [-1] ++ post.map Int.ofNat) = prod pre * prod post := by
     simp only [prodNonNeg_append, prodNonNeg_ofNat]
     simp [prodNonNeg, prod]
-  simp only [shapeReshape, countNegativeReshape_eq _ hne, hc, hpn]
+  have hbad : (pre.map Int.ofNat ++ [-1] ++ post.map Int.ofNat).any (fun d => d != -1 && d ≤ 0) = false := by
+    simp only [List.any_append, any_bad_ofNat pre hpre, any_bad_ofNat post hpost]
+    decide
+  simp only [shapeReshape, countNegativeReshape_eq, hc, hpn, hbad]
   have hmod : prod src % (prod pre * prod post) = 0 := Nat.mod_eq_zero_of_dvd hdiv
   simp [hmod, map_infer_ofNat]
 
@@ -190,7 +183,7 @@ theorem reshape_elem {α : Type} (a : Arr α) (fill : α) (dst : List Int) (v : 
     prod v.dst = prod a.shape ∧ (v.apply a fill).flat = a.flat := by
   simp only [reshapeView, Option.map_eq_some_iff] at hv
   obtain ⟨s, hs, rfl⟩ := hv
-  have hp := shapeReshape_prod a.shape dst s ha hs
+  have hp := shapeReshape_prod a.shape dst s hs
   refine ⟨hp, ?_⟩
   have hpos : Pos s := pos_of_prod_pos s (by rw [hp]; exact prod_pos ha)
   simp only [Arr.flat, IxView.apply]
@@ -207,74 +200,55 @@ theorem reshape_inBounds (src : Shape) (dst : List Int) (v : IxView) (hs : Pos s
   exact indices_inShape hs _
 
 /-- **flatten** is accepted for positive extents, has shape `[size]` -/
-theorem flatten_shape (src : Shape) :
+theorem flatten_shape (src : Shape) (hs : Pos src) :
     ∃ v, flattenView src = some v ∧ v.src = src ∧ v.dst = [prod src] := by
-  have h := reshape_shape src [prod src] (by simp) (by simp [prod])
+  have h := reshape_shape src [prod src] (by intro x hx; simp at hx; subst hx; exact prod_pos hs) (by simp [prod])
   simp only [List.map_cons, List.map_nil] at h
   simp only [flattenView, reshapeView]
   rw [show ((prod src : Nat) : Int) = Int.ofNat (prod src) from rfl, h]
   exact ⟨_, rfl, rfl, rfl⟩
 
-/-- known finding: a target of rank 0 — NumPy's `()` for a one-element array — is refused (`dst_numel` stays 0) -/
-theorem reshape_to_rank0_counterexample :
-    prod ([] : Shape) = prod [1,1] ∧ shapeReshape [1,1] (([] : Shape).map Int.ofNat) ≠ some [] := by decide
-
-/-- **squeeze = NumPy** whenever the result has rank ≥ 1: all extents `1` are removed, the others keep their order,
+/-- **squeeze = NumPy** (a rank-0 result included): all extents `1` are removed, the others keep their order,
     C order of the elements is kept -/
-theorem squeeze_eq_spec {α : Type} (a : Arr α) (fill : α) (ha : Pos a.shape) (hne : ∃ e ∈ a.shape, e ≠ 1) :
+theorem squeeze_eq_spec {α : Type} (a : Arr α) (fill : α) (ha : Pos a.shape) :
     ∃ v, squeezeView a.shape = some v ∧ v.src = a.shape ∧ v.dst = a.shape.filter (fun e => e != 1) ∧
-      (v.apply a fill).flat = a.flat ∧ v.InBounds := by
-  obtain ⟨e, he, he1⟩ := hne
-  have hne' : shapeSqueeze a.shape ≠ [] := by
-    intro h
-    have : e ∈ shapeSqueeze a.shape := by simp [shapeSqueeze, he, he1]
-    rw [h] at this; simp at this
-  exact reshapeView_nat a fill (shapeSqueeze a.shape) hne' (prod_filter_ne_one _) ha
+      (v.apply a fill).flat = a.flat ∧ v.InBounds :=
+  reshapeView_nat a fill (shapeSqueeze a.shape) (prod_filter_ne_one _) ha
 
-/-- known finding: squeezing an all-ones shape (NumPy: shape `()`) returns Nothing -/
-theorem squeeze_all_ones_counterexample : squeezeView [1,1] = none ∧ [1,1].filter (fun e => e != 1) = ([] : Shape) := by
-  decide
-
-/-- **atleast_nd / atleast_1d / atleast_2d = NumPy** (`ndmin`): ones are prepended up to rank `nd`, C order kept;
-    holds whenever the result rank is ≥ 1 -/
-theorem atleastNd_eq_spec {α : Type} (a : Arr α) (fill : α) (nd : Nat) (ha : Pos a.shape)
-    (hr : 0 < max a.shape.length nd) :
+/-- **atleast_nd / atleast_1d / atleast_2d = NumPy** (`ndmin`): ones are prepended up to rank `nd`, C order kept -/
+theorem atleastNd_eq_spec {α : Type} (a : Arr α) (fill : α) (nd : Nat) (ha : Pos a.shape) :
     ∃ v, atleastNdView a.shape nd = some v ∧ v.src = a.shape ∧
       v.dst = List.replicate (nd - a.shape.length) 1 ++ a.shape ∧
       (v.apply a fill).flat = a.flat ∧ v.InBounds := by
   have hsh : shapeAtleastNd a.shape nd = List.replicate (nd - a.shape.length) 1 ++ a.shape := by
     simp only [shapeAtleastNd]; congr 2; omega
-  have hne : shapeAtleastNd a.shape nd ≠ [] := by
-    intro h
-    have := congrArg List.length h
-    simp only [shapeAtleastNd, List.length_append, List.length_replicate, List.length_nil] at this
-    omega
   have hp : prod (shapeAtleastNd a.shape nd) = prod a.shape := by
     simp [shapeAtleastNd, prod_append, prod_replicate_one]
-  obtain ⟨v, h1, h2, h3, h4⟩ := reshapeView_nat a fill _ hne hp ha
+  obtain ⟨v, h1, h2, h3, h4⟩ := reshapeView_nat a fill _ hp ha
   exact ⟨v, h1, h2, by rw [h3, hsh], h4⟩
 
-/-- **flip = NumPy** for non-negative valid axes (on which NumPy's normalisation is the identity): same shape;
-    element `d` is read from `i` with `i[k] = n_k - 1 - d[k]` on the listed axes and `i[k] = d[k]` elsewhere -/
-theorem flip_eq_spec (src : Shape) (ax : List Int) (_hax : ∀ a ∈ ax, 0 ≤ a ∧ a < (src.length : Int)) :
+/-- **flip = NumPy** for every valid axis list (negative entries allowed): `nax` is NumPy's normalised axis tuple;
+    same shape; element `d` is read from `i` with `i[k] = n_k - 1 - d[k]` on the listed axes and `i[k] = d[k]` elsewhere -/
+theorem flip_eq_spec (src : Shape) (ax : List Int) (nax : List Nat)
+    (hn : normalizeAxes src.length ax = some nax) :
     ∃ v, flipView src (some ax) = some v ∧ v.src = src ∧ v.dst = src ∧
       ∀ d, InShape d src → ∃ i, v.map d = some i ∧ i.length = src.length ∧
         ∀ (k n x : Nat), src[k]? = some n → d[k]? = some x →
-          i[k]? = some (if (k : Int) ∈ ax then n - 1 - x else x) := by
+          i[k]? = some (if k ∈ nax then n - 1 - x else x) := by
   refine ⟨_, rfl, rfl, rfl, ?_⟩
   intro d hd
-  refine ⟨flipIdx src (some ax) d, rfl, flipGo_length _ _ _ _ hd.length_eq, ?_⟩
-  intro k n x hn hx
+  refine ⟨flipIdx src (some ax) d, rfl, flipGo_length _ _ _ _ _ hd.length_eq, ?_⟩
+  intro k n x hn' hx
   simp only [flipIdx]
-  rw [flipGo_get (some ax) 0 src d k n x hn hx]
+  rw [flipGo_get (some ax) src.length 0 src d k n x hn' hx]
   congr 1
   simp only [Nat.zero_add]
-  by_cases h : (k : Int) ∈ ax
-  · simp [h, (flipInAxis_some ax k).2 h]
-  · have : flipInAxis (some ax) k = false := by
-      cases hf : flipInAxis (some ax) k with
+  by_cases h : k ∈ nax
+  · simp [h, (flipInAxis_some ax nax src.length k hn).2 h]
+  · have : flipInAxis (some ax) src.length k = false := by
+      cases hf : flipInAxis (some ax) src.length k with
       | false => rfl
-      | true => exact absurd ((flipInAxis_some ax k).1 hf) h
+      | true => exact absurd ((flipInAxis_some ax nax src.length k hn).1 hf) h
     simp [h, this]
 
 /-- `flip(a, None)` reverses every axis -/
@@ -284,10 +258,10 @@ theorem flip_all_eq_spec (src : Shape) :
         ∀ (k n x : Nat), src[k]? = some n → d[k]? = some x → i[k]? = some (n - 1 - x) := by
   refine ⟨_, rfl, rfl, rfl, ?_⟩
   intro d hd
-  refine ⟨flipIdx src none d, rfl, flipGo_length _ _ _ _ hd.length_eq, ?_⟩
+  refine ⟨flipIdx src none d, rfl, flipGo_length _ _ _ _ _ hd.length_eq, ?_⟩
   intro k n x hn hx
   simp only [flipIdx]
-  rw [flipGo_get none 0 src d k n x hn hx]
+  rw [flipGo_get none src.length 0 src d k n x hn hx]
   simp [flipInAxis]
 
 theorem flip_inBounds (src : Shape) (axes : Option (List Int)) (v : IxView)
@@ -297,7 +271,7 @@ theorem flip_inBounds (src : Shape) (axes : Option (List Int)) (v : IxView)
   intro d hd i hi
   simp only [Option.some.injEq] at hi
   subst hi
-  exact flipGo_inShape axes 0 src d hd
+  exact flipGo_inShape axes src.length 0 src d hd
 
 /-- **flipping twice restores the array** (any axes argument) -/
 theorem flip_flip (src : Shape) (axes : Option (List Int)) :
@@ -307,24 +281,17 @@ theorem flip_flip (src : Shape) (axes : Option (List Int)) :
   intro d hd
   show (some (flipIdx src axes d)).bind (fun e => some (flipIdx src axes e)) = some d
   simp only [Option.bind_some, Option.some.injEq, flipIdx]
-  exact flipGo_flipGo axes 0 src d hd
+  exact flipGo_flipGo axes src.length 0 src d hd
 
-/-- known finding: a negative axis (NumPy: `-1` = last axis) is silently ignored -/
-theorem flip_negative_axis_counterexample :
-    normalizeAxes [2,3].length [-1] = some [1] ∧
-    (flipView [2,3] (some [-1])).bind (fun v => v.map [0,0]) = some [0,0] ∧
-    (flipView [2,3] (some [1])).bind (fun v => v.map [0,0]) = some [0,2] := by decide
-
-example : ∀ a ∈ ([0,2] : List Int), 0 ≤ a ∧ a < (([2,3,4] : Shape).length : Int) := by decide
-example : (flipView [2,3,4] (some [0,2])).bind (fun v => v.map [0,1,1]) = some [1,1,2] := by decide
+example : normalizeAxes ([2,3,4] : Shape).length [0,-1] = some [0,2] := by decide
+example : (flipView [2,3,4] (some [0,-1])).bind (fun v => v.map [0,1,1]) = some [1,1,2] := by decide
 example : InShape [0,1,1] [2,3,4] := by decide
 
-/-- **expand_dims = NumPy** (int or tuple axis, negative entries allowed, result rank ≥ 1): `nax` is NumPy's
+/-- **expand_dims = NumPy** (int or tuple axis, negative entries allowed): `nax` is NumPy's
     `normalize_axis_tuple(axis, ndim + len(axis))` (duplicate-free); the result has rank `ndim + len(axis)`, extent 1
     at every listed position, the source shape once those positions are deleted, and the same C-order elements. -/
 theorem expandDims_eq_spec {α : Type} (a : Arr α) (fill : α) (ax : List Int) (nax : List Nat)
-    (hn : normalizeAxes (a.shape.length + ax.length) ax = some nax) (hnd : nax.Nodup) (ha : Pos a.shape)
-    (hr : 0 < a.shape.length + ax.length) :
+    (hn : normalizeAxes (a.shape.length + ax.length) ax = some nax) (hnd : nax.Nodup) (ha : Pos a.shape) :
     ∃ v, expandDimsView a.shape ax = some v ∧ v.src = a.shape ∧
       v.dst.length = a.shape.length + ax.length ∧
       (∀ k ∈ nax, v.dst[k]? = some 1) ∧
@@ -342,8 +309,7 @@ theorem expandDims_eq_spec {α : Type} (a : Arr α) (fill : α) (ax : List Int) 
     hnd (fun k hk => by simp [List.mem_range']; exact hlt k hk)
   simp only [List.length_range'] at hcnt
   obtain ⟨out, h1, h2, h3, h4, h5⟩ := expandGo_spec nax (a.shape.length + ax.length) 0 a.shape (by omega)
-  have hne : out ≠ [] := by intro h; rw [h] at h2; simp at h2; omega
-  obtain ⟨v, hv1, hv2, hv3, hv4, hv5⟩ := reshapeView_nat a fill out hne h5 ha
+  obtain ⟨v, hv1, hv2, hv3, hv4, hv5⟩ := reshapeView_nat a fill out h5 ha
   refine ⟨v, ?_, hv2, by rw [hv3, h2], ?_, by rw [hv3]; exact h3, hv4, hv5⟩
   · simp only [expandDimsView, shapeExpandDims, hn, Option.bind_some, h1, hv1]
   · intro k hk
@@ -396,9 +362,9 @@ theorem flip_is_permutation {α : Type} (a : Arr α) (fill : α) (axes : Option 
   simp only [Arr.flat, IxView.apply]
   refine flat_perm_of_bij a a.shape (flipIdx a.shape axes) (flipIdx a.shape axes) ha ha ?_ ?_
   · intro d hd
-    exact ⟨flipGo_inShape axes 0 _ d hd, flipGo_flipGo axes 0 _ d hd⟩
+    exact ⟨flipGo_inShape axes _ 0 _ d hd, flipGo_flipGo axes _ 0 _ d hd⟩
   · intro d hd
-    exact ⟨flipGo_inShape axes 0 _ d hd, flipGo_flipGo axes 0 _ d hd⟩
+    exact ⟨flipGo_inShape axes _ 0 _ d hd, flipGo_flipGo axes _ 0 _ d hd⟩
 
 /-- **reshape, flatten, expand_dims, squeeze, atleast_nd keep C order** — whenever one of them yields a view of an
     array with positive extents, the view's elements in C order are exactly the source's (the identity permutation) -/
@@ -516,6 +482,10 @@ example : shapeReshape [2,3,4] [4,-1,2] = some [4,3,2] ∧ (4 * 2 ∣ prod [2,3,
 example : (reshapeView [2,3] [3,-1]).map (fun v => (v.dst, v.provenance)) = some ([3,2], [0,1,2,3,4,5]) := by decide
 example : Pos [1,3,1,2] ∧ (∃ e ∈ [1,3,1,2], e ≠ 1) ∧ (squeezeView [1,3,1,2]).map (·.dst) = some [3,2] := by decide
 example : (atleastNdView [3] 3).map (·.dst) = some [1,1,3] ∧ (atleastNdView [] 1).map (·.dst) = some [1] := by decide
+/-! rank-0 results (NumPy's shape `()`) -/
+example : (squeezeView [1,1]).map (fun v => (v.dst, v.provenance)) = some ([], [0]) ∧
+    (reshapeView [1] []).map (·.dst) = some [] ∧ (atleastNdView [] 0).map (·.dst) = some [] ∧
+    (expandDimsView [] []).map (·.dst) = some [] ∧ reshapeView [2] [] = none := by decide
 example : (flattenView [2,3]).map (·.dst) = some [6] := by decide
 
 end NmVerif.Props.C03
